@@ -253,6 +253,7 @@ fn strategy(tier: Tier) -> BoxedStrategy<Case> {
     (
         prop_oneof![
             3 => wire::responses(4, 300, 300),
+            1 => wire::long_sequence(),
             1 => wire::responses_maybe_huge(6, max_payload, tier.pick(5_000, 20_000), 8),
         ],
         prop::option::weighted(0.5, corruption()),
